@@ -8,7 +8,7 @@ patch="$(readlink -f "$1")"; shift; [ "$1" = "--" ] && shift
 REPO="${VERIF_REPO:-/repo}"
 VERIF_DIR="${VERIF_DIR:-/verif}"; mkdir -p "$VERIF_DIR/out"; tmp="$(mktemp -d "$VERIF_DIR/out/mutant.XXXXXX")"
 trap 'rm -rf "$tmp"' EXIT
-files=$(grep -E '^\+\+\+ b/' "$patch" | sed 's#^+++ b/##')
+files=$(grep -E '^\+\+\+ b/' "$patch" | sed 's#^+++ b/##' | cut -f1)
 python3 - "$tmp" "$REPO" $files <<'PY'
 import sys, os, shutil, json
 tmp, repo, files = sys.argv[1], sys.argv[2], sys.argv[3:]
